@@ -114,7 +114,7 @@ def build_bounded():
 
 def run_bounded(binp, name, tier, seed, prop, extra_args=None, timeout=3000):
     outp = os.path.join(WORK, "%s.%s.bounded.json" % (prop, name))
-    cmd = [binp, name, "--tier", tier, "--seed", str(seed), "--out", outp, "--known", os.path.join(VERIF, "known_findings.json")] + (extra_args or [])
+    cmd = [binp, name, "--tier", tier, "--seed", str(seed), "--out", outp, "--known", os.path.join(VERIF, "known_findings.json"), "--focus", prop] + (extra_args or [])
     t0 = time.time()
     try:
         r = sh(cmd, timeout=timeout)
